@@ -85,7 +85,7 @@ def make_operation(opdesc: dict, target_dims: Sequence[int]):
             return Operation(FockOperationType.Squeeze, zeta=cplx(p["zeta"]))
         if name == "Custom":
             d = int(target_dims[0])
-            m = seeded_matrix(opdesc["useed"], d, True)
+            m = seeded_matrix(opdesc["useed"], d, opdesc.get("unitary", True))
             return Operation(FockOperationType.Custom, operator=jnp.array(m))
         if name == "Expresion":
             ctx = {"n": lambda dims: number_operator(dims[0])}
@@ -181,7 +181,7 @@ def ref_operator(opdesc: dict, dims: Sequence[int], lib_dims_at_call: Sequence[i
         if name == "Custom":
             dl = int(lib_dims_at_call[0])
             m = np.eye(d, dtype=complex)
-            m[:dl, :dl] = seeded_matrix(opdesc["useed"], dl, True)
+            m[:dl, :dl] = seeded_matrix(opdesc["useed"], dl, opdesc.get("unitary", True))
             return m
     if fam == "custom":
         d = int(dims[0])
